@@ -101,7 +101,8 @@ def verify_function(eng, key: str) -> FnReport:
             if eng.is_dead(s):
                 continue
             n_paths += 1
-            if n_paths <= 6:
+            expected_exit = out.kind in ("normal", "return") or (out.kind == "raise" and any(E.exc_matches(out.value.tname, [en]) for en in c.raises))
+            if n_paths <= 6 and expected_exit:
                 ob = eng.add_obligation(s, f"canary:path{n_paths}", "canary", z3.BoolVal(False), out.node or fn.node,
                                         "False (must NOT be provable: the path's assumptions are consistent)")
             if out.kind in ("normal", "return"):
@@ -213,6 +214,9 @@ def check_frame(eng, s: State, st0: State, c, penv, fn):
                 for k in eng.b.dict_map_keys(v):
                     allowed.append((k, v.ref))
                 allowed.append((("DKEYS",), v.ref))
+                keys = eng.b.dict_keys_list(spec, v)
+                allowed.append((("LEN",), keys.ref))
+                allowed.append((("ELT", sort_name(sort_of(v.kt))), keys.ref))
     seen = set()
     for key, ref, line in s.writes:
         sig = (key, ref.get_id())
